@@ -384,6 +384,13 @@ def jobs(tier, seed):
     for a, b in ((1, 100), (2, 1), (5, 0)):
         add('relabel', layout=A, a=a, b=b, mode='std')
         add('relabel', layout=B, a=a, b=b, mode='kw')
+    # smallest spacing 2 with spacings of 3 in between (positions on the expanded grid are floored): shifts that are not multiples of the spacing
+    G = {'e|r1': [2, 4, 7, 9, 11, 14, 16]}
+    G2 = {'e|r1': [2, 4, 7, 9, 11, 14, 16], 'e|r2': [3, 5, 7, 9, 11, 13]}
+    for a, b in ((1, 1), (1, 7), (3, 1)):
+        add('relabel', layout=G, a=a, b=b, mode='s0')
+    add('relabel', layout=G, a=1, b=1, mode='std')
+    add('relabel', layout=G2, a=1, b=3, mode='s0')
     add('relabel', layout=T, a=3, b=5, mode='texp')
     for n, gap in ((5, 1), (6, 2), (7, 5)):
         add('shift_lemma', n=n, gap=gap)
